@@ -1,4 +1,5 @@
 """C15 — fit-into-destination crop (clauses)."""
+from ..engines import formulas
 from ..progs import programs
 from ..sym import Sym, fmt
 
@@ -243,3 +244,4 @@ def run(rep, tier):
         rep.set_cfg(cfg)
         rep.call(rules, rep, prog)
         rep.call(inside, rep, prog, "C15.inside")
+        rep.call(formulas.fit_formula, rep, prog, "C15.formula")
